@@ -5,6 +5,7 @@ import (
 	"fmt"
 	"strings"
 
+	"github.com/samber/ro"
 )
 
 // stages usable in C07 pipelines: synchronous, deterministic, and not error-handling (an operator that
@@ -253,4 +254,80 @@ func isOperatorError(err error) bool {
 		return se.code >= 50
 	}
 	return true
+}
+
+func init() {
+	// failures arriving from one of several sources after Subscribe returned: the error path of the
+	// multi-source operators must not leave a lock held or a producer stuck
+	Register(&Family{
+		Name:   "C07.multi",
+		Props:  []string{"C07"},
+		Weight: 2,
+		Gen: func(g *Gen) *Scn {
+			sc := &Scn{Family: "C07.multi"}
+			name := combOrder[g.Intn(len(combOrder))]
+			c := combs[name]
+			sc.Sub = name
+			k := g.Range(c.Min, c.Max)
+			bad := g.Intn(k)
+			for i := 0; i < k; i++ {
+				end := "C-"
+				if i == bad {
+					end = "E"
+				}
+				sc.Sources = append(sc.Sources, SrcSpec{Mode: g.Pick("async", "async", "hot"), Script: genScript(g, (i+1)*10, 3, end, false)})
+			}
+			return sc
+		},
+		Valid: func(sc *Scn) bool {
+			c := combs[sc.Sub]
+			return c != nil && len(sc.Sources) >= c.Min && len(sc.Sources) <= c.Max
+		},
+		Run: func(e *Env) {
+			sc := e.Sc
+			var srcs []*Src
+			var obs []ro.Observable[int]
+			for _, sp := range sc.Sources {
+				s := e.NewSrc(sp)
+				srcs = append(srcs, s)
+				obs = append(obs, s.Obs())
+			}
+			o := combs[sc.Sub].Build(e, obs)
+			rec := e.NewRec("o")
+			h := e.Subscribe(o, rec.Observer(), nil)
+			e.Settle()
+			FeedAll(srcs)
+			e.SettleFor(50 * Unit)
+			if e.K.Capped() {
+				return
+			}
+			if h.Panic != nil {
+				e.Violate("C07", "panic-escapes-subscribe", fmt.Sprintf("%s: a panic escaped from Subscribe: %v", sc.Sub, h.Panic))
+			}
+			nerr := 0
+			for _, ev := range rec.Events {
+				if ev.K == 'E' {
+					nerr++
+				}
+			}
+			if nerr > 1 {
+				e.Violate("C07", "error-delivered-twice", fmt.Sprintf("%s: %d Error notifications: %s", sc.Sub, nerr, rec.Trace()))
+			}
+			for _, s := range srcs {
+				for _, c := range s.Calls {
+					if c.Panic != nil {
+						e.Violate("C07", "panic-escapes-next", fmt.Sprintf("%s: a panic escaped into a producer's %s call: %v", sc.Sub, c.Step.K, c.Panic))
+					}
+					if c.Return == 0 && h.Ret() {
+						e.Violate("C07", "producer-call-blocked", fmt.Sprintf("%s: a producer's %s%d call never returned although Subscribe had returned (a lock left held on the failure path?); trace %s", sc.Sub, c.Step.K, c.Step.V, rec.Trace()))
+					}
+				}
+			}
+			for _, a := range e.K.Actors() {
+				if a.Blocked() && a.PendingKind().String() == "lock" && h.Ret() {
+					e.Violate("C07", "lock-left-held", fmt.Sprintf("%s: actor %s is blocked on a lock at quiescence", sc.Sub, a.Site))
+				}
+			}
+		},
+	})
 }
